@@ -2,8 +2,9 @@
 fn gcd_ext_large(mut lhs: Buffer, mut rhs: Buffer) -> (Repr, Repr, Repr)
 /*@
     requires large_wf(lhs@), large_wf(rhs@),        // from the call sites: the words of two `Large` operands
-        // resource bound + KNOWN DEFECT excluded (reported; see lib/gcdo_ops_stubs.rs gcd_ext_large_pre and
-        // engine/registry_d/gcd_order.py): gcd_ext(2^320, 2^128) trips an assertion of the division
+        // resource bound only (room for the top quotient word of the cofactor); the former defect region -- the smaller
+        // operand divides the larger one and is more than two words shorter, e.g. gcd_ext(2^320, 2^128) -- is INCLUDED:
+        // the residue buffer is now at least as long as the divisor
         gcd_ext_large_pre(lhs@, rhs@),
     ensures repr_gcd_ext_post(val(lhs@), val(rhs@), ret.0.v(), ret.1.v(), ret.2.v()),
 @*/
@@ -71,29 +72,27 @@ fn gcd_ext_large(mut lhs: Buffer, mut rhs: Buffer) -> (Repr, Repr, Repr)
         lemma_gcdo_div_le(gv, r);
         lemma_gcdo_prod_room(r, bm, gv, rl, bl);
         assert(r * bm == bm * r) by (nonlinear_arith);
-        // the divisibility excluded by the precondition, in terms of the ordered operands
-        lemma_gcdo_residue_len(l, r, gv, bm, m, b_sign == Sign::Positive, ll, rl, bl);
     } @*/
 
     // residue = g - rhs * b
     let brhs_len = rhs_clone.len() + b.len();
-    let (residue, mut memory) = memory.allocate_slice_fill(brhs_len + 1, 0);
+    let (residue, mut memory) = memory.allocate_slice_fill((brhs_len + 1).max(lhs_len), 0);
+    /*@ let ghost rn = residue@.len() as int; @*/
     /*@ let ghost res0 = residue@; @*/
     mul::multiply(&mut residue[..brhs_len], rhs_clone, &b, &mut memory);
     /*@ let ghost res1 = residue@; @*/
     /*@ proof {
-        lemma_val_split(res1, brhs_len as int);
-        lemma_val1(res1.subrange(brhs_len as int, brhs_len + 1));
-        assert(res1[brhs_len as int] == res0[brhs_len as int]);
-        assert(pw(brhs_len as int) * 0 == 0);
+        assert(rn >= brhs_len + 1 && rn >= ll);
+        assert forall|j: int| brhs_len as int <= j < rn implies res1[j] == 0 by { assert(res1[j] == res0[j]); }
+        lemma_val_prefix(res1, brhs_len as int);
         assert(val(res1) == r * bm);
-        lemma_pw_mono(rl + bl, rl + bl + 1);
+        lemma_pw_mono(rl + bl, rn - 1);
     } @*/
     match b_sign {
         Sign::Negative => {
             *residue.last_mut().unwrap() = add::add_in_place(residue, &g) as Word;
             /*@ proof {
-                let n = brhs_len as int;
+                let n = rn - 1;
                 let x = r * bm + gv;
                 assert(val(residue@) == x) by {
                     // the state `ra` between the addition and the store of its carry into the top word
@@ -108,8 +107,8 @@ fn gcd_ext_large(mut lhs: Buffer, mut rhs: Buffer) -> (Repr, Repr, Repr)
         Sign::Positive => {
             let overflow = add::sub_in_place(residue, &g);
             /*@ proof {
-                lemma_valn_bound(residue@, brhs_len + 1);
-                lemma_no_borrow(val(residue@), b2i(overflow), pw(brhs_len + 1), bm * r - gv);
+                lemma_valn_bound(residue@, rn);
+                lemma_no_borrow(val(residue@), b2i(overflow), pw(rn), bm * r - gv);
             } @*/
             debug_assert!(!overflow);
         }
@@ -126,8 +125,8 @@ fn gcd_ext_large(mut lhs: Buffer, mut rhs: Buffer) -> (Repr, Repr, Repr)
     /*@ let ghost res3 = residue@; @*/
     /*@ proof {
         lemma_valn_bound(res3.subrange(0, ll), ll);
-        lemma_gcdo_divide(m, l, pow2(shift as int), val(res2), val(lc1), val(res3.subrange(ll, brhs_len + 1)), overflow as int,
-            pw(brhs_len + 1 - ll), val(res3.subrange(0, ll)));
+        lemma_gcdo_divide(m, l, pow2(shift as int), val(res2), val(lc1), val(res3.subrange(ll, rn)), overflow as int,
+            pw(rn - ll), val(res3.subrange(0, ll)));
         let t3 = res3.subrange(0, ll);
         lemma_gcdo_low_zero_val(t3);
         assert(t3[0] == res3[0]);
@@ -139,7 +138,7 @@ fn gcd_ext_large(mut lhs: Buffer, mut rhs: Buffer) -> (Repr, Repr, Repr)
         a.push(overflow);
     }
     /*@ proof {
-        if overflow == 0 { assert((overflow as int) * pw(brhs_len + 1 - ll) == 0) by (nonlinear_arith) requires overflow as int == 0; }
+        if overflow == 0 { assert((overflow as int) * pw(rn - ll) == 0) by (nonlinear_arith) requires overflow as int == 0; }
         assert(val(a@) == m);
     } @*/
 
